@@ -84,6 +84,23 @@ def select_semantics(prog, res):
     ctor = [(b, i, s, c) for b, i, s, c in calls
             if ((c.get("fn") or "").startswith("std::basic_regex<char>::basic_regex") or (c.get("fn") or "").startswith("std::basic_regex<char>::assign"))
             and from_name(c)]
+    # the compilation may live in a helper of this file that receives the
+    # pattern: the call to the helper is then the compilation point in select,
+    # and the helper's constructor call carries the flags
+    flag_of = {}
+    if not ctor:
+        def is_rx(fn):
+            return fn.startswith("std::basic_regex<char>::basic_regex") or fn.startswith("std::basic_regex<char>::assign")
+        for b, i, s, c in calls:
+            g = prog.func(c.get("fn") or "", required=False) if c.get("fn") else None
+            if g is None or g is f or not from_name(c) or g.file != f.file:
+                continue
+            gids = {p_["id"] for p_ in g.params if "string" in p_.get("t", "") or "char" in p_.get("t", "")}
+            for gb, gi, gs in g.all_stmts():
+                for gc in ir.calls_in(gs):
+                    if is_rx(gc.get("fn") or "") and any(y.get("k") == "var" and y.get("id") in gids for a in gc.get("args", []) for y in ir.walk(a)):
+                        ctor.append((b, i, s, c))
+                        flag_of[id(c)] = (g, gs, gc)
     if not ctor:
         res.fail(R, "regex built with icase", "R-SELECT|no-regex", f.loc(), "select no longer compiles a std::regex from the pattern")
     # a remembered pattern (cache key) is stored only after the pattern it names
@@ -117,6 +134,11 @@ def select_semantics(prog, res):
                      "select stores the requested pattern in '%s' before compiling it: if the pattern is malformed the compilation throws (error status), but the next "
                      "identical request finds it remembered, skips the compilation and matches with the previously compiled regex - a malformed pattern selects a device" % key)
     for b, i, s, c in ctor:
+        if id(c) in flag_of:
+            g_, s, c = flag_of[id(c)]
+            floc = g_.loc(s)
+        else:
+            floc = f.loc(s)
         flags = [a for a in c.get("args", []) if isinstance(a, dict) and a.get("k") == "int"]
         nm = set()
         for a in flags:
@@ -125,9 +147,9 @@ def select_semantics(prog, res):
                 nm.add(a["e"])
         ok = "icase" in nm
         if ok:
-            res.oblige(R, "regex built with icase", True, "flags %s" % sorted(nm), f.loc(s))
+            res.oblige(R, "regex built with icase", True, "flags %s" % sorted(nm), floc)
         else:
-            res.fail(R, "regex built with icase", "R-SELECT|icase", f.loc(s),
+            res.fail(R, "regex built with icase", "R-SELECT|icase", floc,
                      "the pattern is compiled without std::regex_constants::icase (flags: %s): matching is case-sensitive" % sorted(nm))
     # (c) empty pattern short-circuit: regex_match only on the false edge of empty()
     for b, i, s, c in rm:
@@ -414,6 +436,71 @@ def rule_range_reject(prog, res, rule="R-RANGE-REJECT"):
     return n
 
 
+def format_taint(prog, res, rule="R-FMT-TAINT"):
+    """The catch handlers of device.manager.cpp hand e.what() to the logger as the printf FORMAT.  That is
+    harmless as long as no exception text carries caller-controlled bytes.  Taint rule: where such a sink
+    exists in the translation unit, no `throw` in it builds its message from a string-typed parameter of
+    the function that throws (the selection pattern, an identifier name handed in by the caller) - directly,
+    through operator+, or through a local derived from it.  ('%s' / '%n' in a malformed pattern would be
+    interpreted by vsnprintf: a crash instead of an error status.)"""
+    sinks = []
+    throws = []
+    for g in prog.all_funcs():
+        if not g.file.endswith("device.manager.cpp") or not g.blocks:
+            continue
+        for b, i, s_ in g.all_stmts():
+            for c in ir.calls_in(s_):
+                if c.get("fn") == "aq_logger" and len(c.get("args", [])) >= 5:
+                    fmt = ir.strip(c["args"][4])
+                    if not (isinstance(fmt, dict) and fmt.get("k") == "str"):
+                        sinks.append((g, s_, fmt))
+            for y in ir.walk(s_):
+                if isinstance(y, dict) and y.get("k") == "throw" and isinstance(y.get("e"), dict):
+                    throws.append((g, b.id, i, s_, y))
+    inst = "device.manager.cpp: no caller-controlled text reaches a printf format through an exception message"
+    if not sinks:
+        res.oblige(rule, inst, True, "no handler passes a computed string as the format", "acquire-core-libs/src/acquire-device-hal/device/hal/device.manager.cpp")
+        return 0
+    bad = []
+    for g, bid, i, s_, th in throws:
+        sparams = {p_["id"] for p_ in g.params if "basic_string" in p_.get("t", "") or ("char" in p_.get("t", "") and p_.get("pd"))}
+        if not sparams:
+            continue
+        derived = set(sparams)
+        changed = True
+        while changed:
+            changed = False
+            for b2, i2, s2 in g.all_stmts():
+                if s2.get("k") == "decl" and isinstance(s2.get("init"), dict) and s2["var"]["id"] not in derived and \
+                        any(isinstance(z, dict) and z.get("k") == "var" and z.get("id") in derived for z in ir.walk(s2["init"])):
+                    derived.add(s2["var"]["id"])
+                    changed = True
+                for lv, op, rhs, w in ir.writes_of(s2):
+                    if lv.get("k") == "var" and lv["id"] not in derived and isinstance(rhs, dict) and \
+                            any(isinstance(z, dict) and z.get("k") == "var" and z.get("id") in derived for z in ir.walk(rhs)):
+                        derived.add(lv["id"])
+                        changed = True
+                # snprintf(buf, n, fmt, tainted...) taints buf
+                for c in ir.calls_in(s2):
+                    if c.get("fn") in ("snprintf", "sprintf", "strncpy", "strcpy", "memcpy") and c.get("args"):
+                        dst = ir.strip(c["args"][0])
+                        if isinstance(dst, dict) and dst.get("k") == "var" and dst["id"] not in derived and \
+                                any(isinstance(z, dict) and z.get("k") == "var" and z.get("id") in derived for a in c["args"][1:] for z in ir.walk(a)):
+                            derived.add(dst["id"])
+                            changed = True
+        if any(isinstance(z, dict) and z.get("k") == "var" and z.get("id") in derived for z in ir.walk(th["e"])):
+            bad.append((g, s_))
+    if bad:
+        g, s_ = bad[0]
+        res.fail(rule, inst, "%s|%s" % (rule, g.name.split("::")[-1]), g.loc(s_),
+                 "%s throws an exception whose message is built from its string parameter, and the handlers of this file pass e.what() to the logger as the printf format (%d such site(s)): "
+                 "'%%s' / '%%n' in the caller's text is interpreted by vsnprintf - a crash instead of an error status" % (g.name.split("::")[-1], len(sinks)))
+    else:
+        res.oblige(rule, inst, True, "%d handler(s) use e.what() as the format; %d throw site(s), none carries a string parameter" % (len(sinks), len(throws)),
+                   "acquire-core-libs/src/acquire-device-hal/device/hal/device.manager.cpp")
+    return 1
+
+
 def loader_cleanup(prog, res):
     f = prog.func("driver_load")
     res.touched(f)
@@ -566,6 +653,8 @@ def run(ctx, res):
     slot_index(prog, res)
     basics_tables(prog, res)
     res.guard(rule_range_reject, prog, res)
+    res.guard(format_taint, prog, res)
+    res.require_min("R-FMT-TAINT", 1)
     res.require_min("R-RANGE-REJECT", 2)
     loader_cleanup(prog, res)
     res.guard(bounded_and_literals, prog, res)
